@@ -35,6 +35,36 @@ CLAIMED = {
         "Trusts SpecSM; is_executing between engage() and the next execute() is unspecified and not judged; current_state is compared with the model's pending state.",
         "3.1 (C04)",
     ),
+    "C05": (
+        "Hypothesis-generated robot programs (component layout, robot inheritance, hooks, feedbacks, on-disk autonomous package) x driver-station mode histories x sub-period clock chunks, run through the real startCompetition() thread under a harness-owned simulated clock; oracle = expected callback sequence per iteration computed from the layout, alarm grid, /robot/mode subscriber",
+        "Generated search over layouts and mode histories against an exact expected-log oracle written from the statement; the harness owns the schedule (one clock step = one loop iteration) so results are deterministic.",
+        "Trusts the HAL simulator's notifier/clock and DriverStation simulator; <=4 components, <=8 segments; real-time jitter is out of reach.",
+        "3.2 (C05)",
+    ),
+    "C06": (
+        "same lab; oracle = exact callback sequence of boot, every mode transition (incl. direct enabled<->enabled switches, one-iteration segments) and shutdown in any mode, a probe from inside setup(), and a model-free per-component lifecycle automaton",
+        "Generated search over mode histories with an expected-sequence oracle plus an independent automaton invariant over the log.",
+        "Same trusted base as C05.",
+        "3.2 (C06)",
+    ),
+    "C07": (
+        "same lab + generated fault plans (1-3 raising callback sites, occurrence patterns) x FMS on/off; metamorphic oracle: faulty run vs fault-free run of the same program and history (identical logs with FMS; exact prefix + identity of the escaping exception object without)",
+        "Fault injection at every callback site the generated layout has, decided by a metamorphic relation that needs no model of the framework.",
+        "Same trusted base as C05; the FMS flag is constant per case; exceptions in createObjects/setup (outside the statement) are not injected.",
+        "3.2 (C07)",
+    ),
+    "C10": (
+        "same lab + will_reset_to markers (own/inherited) and write plans from teleopPeriodic / autonomous mode / components, optional faults under FMS; every callback snapshots all marked and plain attributes; oracle = replay of the log (default unless written earlier in the same enabled iteration)",
+        "Generated search over write patterns x mode histories x faults with an explicit replay oracle over per-callback snapshots.",
+        "Same trusted base as C05; writes during disabled/test iterations are outside the statement and not generated.",
+        "3.2 (C10)",
+    ),
+    "C11": (
+        "same lab + generated @feedback getters (names, key=, 14 annotation kinds, value sequences, raising getters under FMS); independent generic NetworkTables subscribers read value and type string after every iteration in every mode (struct payloads decoded by hand)",
+        "Generated search over getter definitions x mode histories with value/type/key/call-count oracles computed from the definition.",
+        "Same trusted base as C05 plus ntcore's local publish/subscribe; un-annotated getters are only checked for value and a plausible inferred type.",
+        "3.2 (C11)",
+    ),
     "C13": (
         "AutonomousStateMachine built from generated shapes, on_enable/on_iteration/on_disable histories over 1-3 periods; oracles = SpecSM with the latch, and a differential twin (same class body on StateMachine driven by engage()+execute())",
         "Generated search with two independent oracles (reference model and differential twin) over multi-period histories.",
